@@ -1158,6 +1158,36 @@ def install(I):
         return r
     ext["numpy.transpose"] = np_transpose
 
+    def np_ones(I, a, k):
+        shp = a[0]
+        shp = [shp] if is_intlike(shp) else list(B.iterate(I, shp))
+        t = Tensor(shp, lambda idx: z3.RealVal(1), "float")
+        t.np_like = True
+        return t
+    ext["numpy.ones"] = np_ones
+
+    def block_diag(I, a, k):
+        """scipy.linalg.block_diag of 2-D arrays: block b occupies rows [R_b, R_b + r_b) x columns [C_b, C_b + c_b); zero elsewhere"""
+        bs = [as_tensor(x) for x in a]
+        if any(b.rank != 2 for b in bs):
+            raise Unsupported("block_diag of arrays that are not 2-D")
+        rows, cols, offs = 0, 0, []
+        for b in bs:
+            offs.append((rows, cols, b))
+            rows, cols = rows + b.shape[0], cols + b.shape[1]
+
+        def elem(idx, offs=offs):
+            i, j = to_z3(lin(idx[0])), to_z3(lin(idx[1]))
+            out = z3.RealVal(0)
+            for r0, c0, b in reversed(offs):
+                inside = z3.And(i >= to_z3(r0), i < to_z3(r0 + b.shape[0]), j >= to_z3(c0), j < to_z3(c0 + b.shape[1]))
+                out = z3.If(inside, to_z3(b.elem([i - to_z3(r0), j - to_z3(c0)])), out)
+            return out
+        t = Tensor([rows, cols], elem, "float")
+        t.np_like = True
+        return t
+    ext["scipy.linalg.block_diag"] = block_diag
+
     def arange(I, a, k):
         if len(a) == 1:
             lo, hi = 0, a[0]
